@@ -8,6 +8,7 @@ G:  AccRounds_Gen enumerates scenarios (3 senders, up to 25 transfers each to on
 X:  harness/accrounds assembles real PVM accumulate programs (transfer / fetch / write / checkpoint / trap), and runs
     DeferredTransfers(), ParallelizedAccumulation() and OuterAccumulation() 60 (quick) / 300 (thorough) times per scenario on
     identical prior states with GOMAXPROCS in {1,2,16} x MaxWorkers in {1,2,32}; identical observations are grouped.
+    SingleServiceAccumulation() is also run for every receiver on the first round's transfers in seeded arbitrary orders.
 V:  AccRounds_Trace: one group per entry point, equal to the Gray-Paper layer's unique result."""
 import json
 import os
@@ -81,11 +82,11 @@ def run(ctx):
             for c in cases:
                 f.write(json.dumps(c) + "\n")
         tracep = os.path.join(ctx.tmp, "trace.ndjson")
-        vf.run_driver(ctx, binp, "TestAccRounds", env={"VF_CASES": casep, "VF_OUT": tracep, "VF_RUNS": 60 if q else 300}, timeout=1500)
+        vf.run_driver(ctx, binp, "TestAccRounds", env={"VF_CASES": casep, "VF_OUT": tracep, "VF_RUNS": 60 if q else 300, "VF_SEED": ctx.seed}, timeout=1500)
         lines = vf.read_lines(tracep)
         ctx.cov["actions"]["scenarios_enumerated"] = total
     recs = [json.loads(x) for x in lines]
-    ctx.cov["evaluations"] = sum(3 * r["runs"] for r in recs)
+    ctx.cov["evaluations"] = sum(3 * r["runs"] + sum(sum(g["count"] for g in x["groups"]) for x in r.get("single", [])) for r in recs)
     ctx.cov["distinct_nontrivial"] = sum(1 for r in recs if r["sc"].get("over12"))
     ctx.cov["rule"] = ("one evaluation = one complete run of DeferredTransfers / ParallelizedAccumulation / OuterAccumulation on a fresh identical "
                        "prior state; non-trivial = scenarios in which one receiver gets more than 12 transfers (from up to 4 senders)")
